@@ -61,3 +61,21 @@ Definition admon_spec_ok (l : list str) (i : list str + nat) : bool :=
 Definition judge_admon (c : list str * (list str + nat)) : nat :=
   let '(l, impl) := c in
   verdict (negb (res_eqb (run l) impl)) (negb (admon_spec_ok l impl)) (admon_region l).
+
+(* ---------- one comment shared by the variables of one declaration ---------- *)
+(* case: (field names, the doc lines delivered for the declaration, per declared variable in order:
+   the metadata found and the doc lines left).  Every variable is documented by the whole comment:
+   model: each gets read_metadata of the delivered lines; spec: all variables get the same metadata
+   and the same body, and that body is the comment minus a documented header. *)
+Definition shared_res_eqb (a b : mdict * list str) : bool :=
+  mdict_eqb (fst a) (fst b) && list_eqb str_eqb (snd a) (snd b).
+
+Definition judge_shared (c : list str * list str * list (mdict * list str)) : nat :=
+  let '(fields, l, rs) := c in
+  let m := read_metadata fields l in
+  let l' := read_metadata_pre fields l in
+  verdict (negb (forallb (shared_res_eqb m) rs))
+          (negb (match rs with
+                 | [] => true
+                 | r0 :: _ => forallb (shared_res_eqb r0) rs && forallb (fun r => meta_spec_ok l' (snd r)) rs
+                 end)) 0.
